@@ -107,6 +107,14 @@ def examineD (rq : Request) (d : Datagram) : Step :=
     else if !questionMatches then .skip .question
     else .accept
 
+/-- Decidable class `C16.UdpEndsInsteadOfSkipped`: a datagram from the queried address and port that
+is not accepted and is not skipped either — it ends the transmission with an error (undecodable, not
+a response, or — case randomisation on, right id, asked questions — different letter case). -/
+def endsInsteadOfSkipped (rq : Request) (d : Datagram) : Bool :=
+  sourceOk rq d &&
+    (!d.parses || !d.isResponse ||
+      (decide (rq.id = d.id) && rq.caseRand && d.questions.all (asked rq) && !d.questions.all (askedCase rq)))
+
 def examine (rq : Request) : Event → Step
   | .ioErr => .fail .io
   | .dgram d => examineD rq d
